@@ -670,11 +670,24 @@ func main() {
 				c := &cur[i]
 				dir := getDir()
 				var out *tupleOut
-				ok := u.Watchdog(watchdog, func() { out = runTuple(st, c, dir) })
+				var out1 *tupleOut
+				ok := u.Watchdog(watchdog, func() { out1 = runTuple(st, c, dir) })
+				if ok {
+					out = out1
+				} else {
+					// A stall of the whole process (machine overload) also trips a wall-clock watchdog: a hang is
+					// only reported if a second, fresh attempt in a new scratch directory does not terminate either.
+					// (out1 and dir stay with the abandoned goroutine.)
+					dir2 := getDir()
+					var out2 *tupleOut
+					if ok = u.Watchdog(watchdog, func() { out2 = runTuple(st, c, dir2) }); ok {
+						out, dir = out2, dir2
+					}
+				}
 				r.Evals.Add(1)
 				tuples.Add(1)
 				if !ok {
-					r.Violation(st+":hang", fmt.Sprintf("tuple #%d did not terminate within %v", off+i, watchdog), replayData{st, *c})
+					r.Violation(st+":hang", fmt.Sprintf("tuple #%d did not terminate within %v (twice)", off+i, watchdog), replayData{st, *c})
 					return // the scratch dir stays with the abandoned goroutine
 				}
 				putDir(dir)
